@@ -94,9 +94,9 @@ def ownership(ctx):
     from .rules import ownership as own
     P = program()
     c = _sub()
-    names = ["own_leak_bad", "own_double_bad", "own_realloc_bad", "own_good"]
+    names = ["own_leak_bad", "own_double_bad", "own_realloc_bad", "own_stack_or_heap_bad", "own_good", "own_stack_or_heap_good"]
     own.check(c, [P.fn(n) for n in names], "R2", "own")
-    _expect(ctx, "R2.ownership", c, names[:3], names[3:])
+    _expect(ctx, "R2.ownership", c, names[:4], names[4:])
 
 
 def cursor(ctx):
